@@ -68,7 +68,14 @@ def spec_names(s) -> set:
     if t == "P":
         return {n for n, _ in s["ch"] + s["pa"] + s["do"]} | {n for v in s.get("vdo", []) for n, _ in v}
     if t == "Q":
-        return set(s["cod"]) | set(s["dom"])
+        out = set()
+        for v in s["cod"] + s["dom"]:
+            if isinstance(v, str):
+                out.add(v)
+            else:
+                out.add(v[0])
+                out.update(m for m, _ in v[2])
+        return out
     if t == "prod":
         return set().union(*[spec_names(x) for x in s["xs"]])
     if t == "sum":
@@ -100,7 +107,21 @@ def expr_specs(draw, depth=3, names=NAMES, zero=True, one=True, q=False, nonfree
         if q and r in (2, 3):
             perm = list(draw(st.permutations(names)))
             k = draw(st.integers(1, max(1, len(perm) - 1)))
-            return {"t": "Q", "cod": sorted(perm[:k]), "dom": sorted(perm[k : k + draw(st.integers(1, len(perm) - k))]) if len(perm) > k else sorted(perm[:1])}
+            cod = sorted(perm[:k])
+            dom = sorted(perm[k : k + draw(st.integers(1, len(perm) - k))]) if len(perm) > k else sorted(perm[:1])
+            spec = {"t": "Q", "cod": cod, "dom": dom}
+            if kw.get("mixed_worlds") and draw(st.integers(0, 2)) == 0:
+                # Q-factors over value-marked / subscripted variables
+                others = [n for n in names if n not in cod and n not in dom] or list(names)
+
+                def deco(n):
+                    star = draw(st.sampled_from([None, None, False, True]))
+                    subs = [[m, draw(st.booleans())] for m in sorted(draw(st.lists(st.sampled_from(others), max_size=2, unique=True))) if m != n]
+                    return [n, star, subs]
+
+                spec["cod"] = [deco(n) for n in cod]
+                spec["dom"] = [deco(n) for n in dom]
+            return spec
         return draw(prob_specs(names=names, **kw))
     r = draw(st.integers(0, 9))
     sub = lambda z=zero: expr_specs(depth=depth - 1, names=names, zero=z, one=one, q=q, nonfree_ranges=nonfree_ranges, **kw)  # noqa: E731
@@ -153,7 +174,17 @@ def build_raw(s):
             return PopulationProbability(population=Variable(s["pop"]), distribution=d)
         return Probability(d)
     if t == "Q":
-        return QFactor(domain=frozenset(Variable(n) for n in s["dom"]), codomain=frozenset(Variable(n) for n in s["cod"]))
+        from y0.dsl import CounterfactualVariable, Intervention
+
+        def qv(v):
+            if isinstance(v, str):
+                return Variable(v)
+            n, star, subs = v
+            if subs:
+                return CounterfactualVariable(name=n, star=star, interventions=frozenset(Intervention(m, star=bool(x)) for m, x in subs))
+            return Variable(n, star=star)
+
+        return QFactor(domain=frozenset(qv(v) for v in s["dom"]), codomain=frozenset(qv(v) for v in s["cod"]))
     if t == "prod":
         return Product(tuple(build_raw(x) for x in s["xs"]))
     if t == "sum":
@@ -196,7 +227,16 @@ def build_public(s):
             return builder[ints](dist)
         return builder(dist)
     if t == "Q":
-        return Q[[Variable(n) for n in s["cod"]]]([Variable(n) for n in s["dom"]])
+        def qv(v):
+            if isinstance(v, str):
+                return Variable(v)
+            n, star, subs = v
+            x = pv(n, star)
+            if subs:
+                x = x @ [(+Variable(m) if st_ else -Variable(m)) for m, st_ in subs]
+            return x
+
+        return Q[[qv(v) for v in s["cod"]]]([qv(v) for v in s["dom"]])
     if t == "prod":
         xs = [build_public(x) for x in s["xs"]]
         r = xs[0]
